@@ -29,6 +29,8 @@ func runC16(w *core.World, r *core.Report) {
 	r.Rule("R3", "opcode written = OpcodeIndex[mnemonic of the line], once per line")
 	r.Rule("R4", "integer encoder never right-trims the big-endian buffer")
 	r.Rule("R6", "each source line is assembled in a buffer allocated for it (no pooled or package-level buffer); vm.NewLine appends its string arguments unmodified")
+	r.Rule("R9", "the source text reaches the parser as written (no rewriting of the text before lexing)")
+	r.Rule("R8", "numbers written in the source are not narrowed without a range check anywhere in the assembler")
 	r.Rule("R7", "lexer: every name the VM gives a meaning (navigation targets, wildcard, catch node) is read as one symbol token")
 	r.Rule("R5", "lexer: exactly one token class can start with a decimal digit, and the grammar's integer captures are bound to it")
 
@@ -142,6 +144,35 @@ func runC16(w *core.World, r *core.Report) {
 	checkNumericTokenClass(w, r, "R5")
 	// ---- R6 -----------------------------------------------------------------------------------
 	checkReservedNamesAreOneToken(w, r, "R7")
+	checkSourceReachesParserUnmodified(w, r, "R9")
+	{
+		// the number path of the assembler: what asm.Parse reaches in the package, and the grammar's
+		// capture methods (called by the parser library through reflection); only conversions of
+		// numbers that were parsed from text (strconv results) are of interest here
+		var af []*ssa.Function
+		roots := []*ssa.Function{w.Func("asm", "Parse")}
+		for _, fn := range w.FuncsIn("asm") {
+			if fn.Name() == "Capture" && fn.Signature.Recv() != nil {
+				roots = append(roots, fn)
+			}
+		}
+		seen, _ := w.Reachable(roots)
+		for _, fn := range w.FuncsIn("asm") {
+			if !seen[fn] || len(fn.Blocks) == 0 {
+				continue
+			}
+			fromText := false
+			for _, c := range core.Calls(fn) {
+				if strings.HasPrefix(core.CallName(c), "strconv.") {
+					fromText = true
+				}
+			}
+			if fromText {
+				af = append(af, fn)
+			}
+		}
+		checkNarrowing(w, r, "R8", af, "a number written in the source is reduced modulo the width of a narrower type on its way to the instruction: the instruction emitted carries another number than the one written")
+	}
 	checkFreshLineBuffer(w, r, "R6")
 	checkNewLineArgsUnmodified(w, r, "R6")
 }
@@ -904,4 +935,39 @@ func checkNewLineArgsUnmodified(w *core.World, r *core.Report, rule string) {
 	}
 	r.Check(bad == "" && n > 0, rule, "vm.NewLine: string arguments are appended unmodified", badPos, fmt.Sprintf("%d append site(s) write the argument itself", n),
 		"an instruction line can carry a cut or altered argument: the expansion of a batch menu line no longer equals the explicit instructions it stands for: "+bad)
+}
+
+// checkSourceReachesParserUnmodified (C16 R9): asm.Parse hands the parser the very string it was
+// given. Rewriting the text first (deleting carriage returns, trimming, appending) changes where
+// the lexer sees line ends and tokens: the lexer accepts a lone CR as a line end, so deleting it
+// glues two lines into one instruction.
+func checkSourceReachesParserUnmodified(w *core.World, r *core.Report, rule string) {
+	pf := w.Func("asm", "Parse")
+	if pf == nil {
+		r.Undecided(rule, "asm.Parse", token.NoPos, "anchor not found")
+		return
+	}
+	r.Touch(core.QName(pf))
+	n, bad := 0, ""
+	var badPos token.Pos
+	for _, c := range core.Calls(pf) {
+		name := core.CallName(c)
+		isSrc := name == "strings.NewReader" || name == "bytes.NewReader" || name == "bytes.NewBufferString" || name == "bytes.NewBuffer" || strings.HasSuffix(name, ".ParseString") || strings.HasSuffix(name, ".ParseBytes")
+		if !isSrc {
+			continue
+		}
+		args := core.CallArgs(c)
+		if len(args) == 0 {
+			continue
+		}
+		n++
+		for _, src := range core.Sources(args[len(args)-1]) {
+			if _, ok := src.(*ssa.Parameter); !ok {
+				bad = fmt.Sprintf("the text handed to the parser at %s derives from %s", w.Pos(c.Pos()), valueDesc(src))
+				badPos = c.Pos()
+			}
+		}
+	}
+	r.Check(bad == "" && n > 0, rule, "asm.Parse: the source text reaches the parser as written", badPos, fmt.Sprintf("%d reader(s) over the parameter itself", n),
+		"the source is rewritten before it is lexed: characters the lexer gives a meaning (line ends, separators) are added or removed, so lines are joined or split and the instructions emitted are not the ones written: "+bad)
 }
